@@ -1,14 +1,24 @@
 --------------------------- MODULE Trace_RegAlloc ---------------------------
 (***************************************************************************)
 (* Trace validation for C08.  Every record is one function as the real     *)
-(* register allocator left it (hook H4, `verif_dump_allocation`):          *)
+(* register allocator handled it (hook H4), in one of two views:           *)
+(*   "post"  the instruction list after MOVE coalescing with the final     *)
+(*           assignment (`RegAlloc` event) and the spill rounds that       *)
+(*           preceded the successful colouring (`Spill` events);           *)
+(*   "pre"   the instruction list the successful colouring attempt started *)
+(*           from (`Coalesce` event: spill code of earlier rounds is in,   *)
+(*           no MOVE has been removed yet) with the assignment composed    *)
+(*           with the coalescing map.  A coalesced MOVE is there with      *)
+(*           destination and source in one physical register, so this view *)
+(*           judges coalescing, colouring and spilling together.           *)
+(* Record:                                                                 *)
 (*   [ops   |-> sequence of [d, u, s, mv]: registers defined / used (as    *)
 (*              sequences), successor positions (0-based), MOVE source or  *)
-(*              0 -- the post-coalescing instruction list,                 *)
+(*              0,                                                         *)
 (*    asg   |-> sequence: physical register number of virtual register k,  *)
 (*              -1 if none was assigned,                                   *)
 (*    spills|-> sequence of spill rounds [locals, slots |-> seq of         *)
-(*              <<key, byte offset>>] that preceded the final colouring]   *)
+(*              <<key, byte offset>>]]                                     *)
 (* Virtual register names have been replaced by 1..Len(asg) and "$rN" by N *)
 (* (a renaming done by the driver); nothing else is precomputed: liveness  *)
 (* is recomputed here from d/u/s by RegAlloc!LiveIn, and RegAlloc's        *)
